@@ -370,8 +370,17 @@ def gen_ops(rng, keys, vals, k):
 def generate(rng):
     nk = rng.choice([2, 3, 4, 6, 8])
     keys = [bytes([rng.randrange(256)]) * rng.choice([1, 2, 32]) for _ in range(nk)]
+    if rng.random() < 0.25:
+        # the keys a trie really files things under: the library's own constants, the empty key
+        from ..hgen import MAGIC
+
+        keys += rng.sample(MAGIC + [b""], rng.choice([1, 2, 3]))
     keys = list(dict.fromkeys(keys))
     vals = [bytes([rng.randrange(1, 256)]) * rng.choice([1, 2, 5]) for _ in range(rng.choice([2, 3, 5]))]
+    if rng.random() < 0.15:
+        from ..hgen import MAGIC
+
+        vals.append(rng.choice(MAGIC + [b"", b"\x00" * 300]))
     initial = [[hx(k), hx(rng.choice(vals))] for k in keys if rng.random() < 0.5]
     prefix = []
     for _ in range(rng.choice([0, 0, 1, 2])):
